@@ -164,7 +164,7 @@ CHECKS = {
         design_ref="DESIGN.md 5/C09",
         note="a call that raises claims nothing; known finding F05 (fewer partitions than requested when "
              "Dask's set_index delivers fewer) is reported as KNOWN-FINDING; trusted: dask graph "
-             "construction, pandas, the pandas-level hilbert_distance as oracle",
+             "construction, pandas, an independent Hilbert reference as oracle for the index",
         technique="deterministic simulation of the task schedule, conservation/ordering invariants "
                   "against a row-level model",
     ),
